@@ -138,8 +138,9 @@ pub fn shrink(m: &Module, class: &str, still_fails: &mut dyn FnMut(&Module) -> O
     let mut cur = m.clone();
     let mut used = 0usize;
     // safety net for cases whose evaluation is slow (a panicking compiler costs ~0.2 s per
-    // evaluation): the shrink stops after 3 s of wall time with what it has
-    let started = std::time::Instant::now();
+    // evaluation): the shrink stops after 3 s of CPU time with what it has (CPU, not wall: the
+    // shrunk witness is the finding key and must not depend on how busy the machine is)
+    let started = crate::engine::self_cpu();
     loop {
         let mut progressed = false;
         let size = cur.size() + cur.functions.len() + cur.submodules.len() + cur.imports.len();
@@ -149,7 +150,7 @@ pub fn shrink(m: &Module, class: &str, still_fails: &mut dyn FnMut(&Module) -> O
                 continue;
             }
             used += 1;
-            if used > budget || started.elapsed().as_secs() >= 3 {
+            if used > budget || (crate::engine::self_cpu() - started).as_secs() >= 3 {
                 return cur;
             }
             if still_fails(&v).as_deref() == Some(class) {
